@@ -484,3 +484,15 @@ CASES += [
  dict(id='keyword-helper-wrong', kind='fire', file=P, patch='bn6-06.diff', old='        "exists" | "any" => SymbolicBDDToken::Exists,\n        "forall" | "all" => SymbolicBDDToken::Forall,', new='        "exists" => SymbolicBDDToken::Exists,\n        "forall" | "all" | "any" => SymbolicBDDToken::Forall,', expect={'C04': 'T'}, control=False),
  dict(id='dot-leaf-matches-wrong', kind='fire', file=IO, patch='bn6-08.diff', old='                        | (TruthTableEntry::False, BDD::False)', new='                        | (TruthTableEntry::False, BDD::True)', expect={'C14': 'X2'}, control=False),
 ]
+
+SY = 'src/symbols.rs'
+CASES += [
+ dict(id='dot-label-escaped', kind='fire', file=IO, old='BDD::Choice(_, v, _) => dot::LabelText::label(format!("{}", v)),', new='BDD::Choice(_, v, _) => dot::LabelText::escaped(format!("{}", v)),', expect={'C14': 'X7'}),
+ dict(id='dot-edges-not-unique', kind='fire', file=IO, old='                    .unique() // disable unique edges when testing for duplicates\n', new='', expect={'C14': 'X7'}),
+ dict(id='parsetree-list-dedup', kind='fire', file=PIO, old='for (j, subtree) in f.iter().enumerate() {', new='for (j, subtree) in f.iter().dedup().enumerate() {', expect={'C14': 'X7'}),
+ dict(id='env-copied', kind='fire', file=P, old='            env,\n', new='            env: Rc::new(env.as_ref().clone()),\n', expect={'C13': 'E8'}),
+ dict(id='symbol-hash-by-name', kind='fire', file=SY, old='self.id.hash(state)', new='self.name.hash(state)', expect={'C13': 'H', 'C02': 'H'}),
+ dict(id='bench-guard-dropped', kind='fire', file=M, old='if args.benchmark.is_some() && repeat > 0 {', new='if args.benchmark.is_some() {', expect={'C12': 'stats'}),
+ dict(id='bench-guard-is-some-and', kind='silent', file=M, old='if args.benchmark.is_some() && repeat > 0 {', new='if args.benchmark.is_some_and(|runs| runs > 0) {', checks=['C12']),
+ dict(id='free-vars-left-list-twice', kind='fire', file=P, old='|| r.iter().any(|f| self.var_is_free(f, var))', new='|| l.iter().any(|f| self.var_is_free(f, var))', expect={'C12': 'var_is_free', 'C09': 'var_is_free'}),
+]
